@@ -176,7 +176,9 @@ func (ft *FT) constTerm(c *ssa.Const) Term {
 		}
 		return "false"
 	case constant.String:
-		return ft.d.strLit(constant.StringVal(c.Value))
+		lit := ft.d.strLit(constant.StringVal(c.Value))
+		ft.litFact(lit)
+		return lit
 	case constant.Int:
 		if b, ok := t.Underlying().(*types.Basic); ok && b.Info()&types.IsFloat != 0 {
 			return ft.floatLit(c.Value)
@@ -1093,4 +1095,19 @@ func (ft *FT) emitAxioms(st *State) {
 			ft.d.axiom("user "+ax.Name, forall(qv, body))
 		}()
 	}
+}
+
+// litFact: `literals P` in the contract: every string literal of the function body satisfies P.
+func (ft *FT) litFact(lit Term) {
+	if ft.con == nil || ft.con.LitPred == "" {
+		return
+	}
+	sf := ft.eng.cons.Specs[ft.con.LitPred]
+	if sf == nil {
+		ft.errf("literals: unknown predicate %s", ft.con.LitPred)
+		return
+	}
+	fname := "spec!" + sf.PkgName + "." + sf.Name
+	ft.d.fun(fname, []Sort{"Str"}, "Bool")
+	ft.d.axiom("lit "+fname+" "+lit, app(q(fname), lit))
 }
